@@ -435,13 +435,22 @@ var dyingTable = map[string][]string{
 	"brokerProducer.run":                           {"brokerProducer.stopchan"},
 }
 
-func c12Dying(c *Ctx) {
+func c12Dying(c *Ctx) { dyingRule(c, 9, func(string) bool { return true }) }
+
+// c07Dying: the consumer-group part of the same rule (a Close that cannot end a session breaks C07 too).
+func c07Dying(c *Ctx) {
+	dyingRule(c, 3, func(fn string) bool { return strings.HasPrefix(fn, "consumerGroup") })
+}
+
+func dyingRule(c *Ctx, floor int, include func(string) bool) {
 	rule := "C12.dying"
 	c.Doc(rule, "every blocking select (no default) of the tabled long-running functions that waits on a timer, ticker or output channel also has a receive case on the component's shutdown channel")
-	c.Floor(rule, 9)
+	c.Floor(rule, floor)
 	names := make([]string, 0, len(dyingTable))
 	for n := range dyingTable {
-		names = append(names, n)
+		if include(n) {
+			names = append(names, n)
+		}
 	}
 	sort.Strings(names)
 	for _, name := range names {
